@@ -21,14 +21,7 @@ def crcrow(cur):
     return "ok " + str(acc)
 
 
-def bitserial(data, start=0xFFFF):
-    """independent oracle: CRC-16/MCRF4XX straight from the definition"""
-    crc = start
-    for b in data:
-        crc ^= b
-        for _ in range(8):
-            crc = (crc >> 1) ^ 0x8408 if crc & 1 else crc >> 1
-    return crc
+from refaes import bitserial  # noqa: E402
 
 
 @op("prop.crc")
